@@ -225,6 +225,56 @@ def run(ck):
         if bad:
             ck.fail(sig, "%s for %s: the range sent to the client does not denote the analysed span in the named document" % (bad[0], bad[1]),
                     case, json.dumps(bad[2])[:600], json.dumps(bad[3])[:600])
+    # republished diagnostics: an edit that keeps every BYTE offset and message but changes the line structure (a blank becomes a
+    # line break, a 2-byte character becomes two ASCII letters); what the client holds afterwards must denote the spans in the
+    # NEW text
+    rlines, rmeta = [], []
+    for i, w in enumerate(wss):
+        m1 = w["main.td"]
+        variants = []
+        k = m1.find(" : ")
+        if k >= 0:
+            variants.append(m1[:k] + "\n" + m1[k + 1:])
+        k = m1.find("\u00fc")       # `ü` (2 bytes, 1 UTF-16 unit) -> `ue` (2 bytes, 2 units)
+        if k >= 0:
+            variants.append(m1[:k] + "ue" + m1[k + 1:])
+        k = m1.find("\r\n")
+        if k >= 0:
+            variants.append(m1[:k] + "\n " + m1[k + 2:])
+        for vi, m2 in enumerate(variants):
+            if len(m2.encode()) != len(m1.encode()):
+                continue
+            d = "%s/tmp/c09r_%d_%d" % (core.BUILD, i, vi)
+            script = [["open", "main.td", m1], ["idle"], ["change", "main.td", m2], ["idle"]]
+            rlines.append("srv " + json.dumps({"dir": d, "disk": {k_: v for k_, v in w.items() if k_ != "main.td"}, "script": script, "timeout_ms": 10000}))
+            w2 = dict(w)
+            w2["main.td"] = m2
+            rmeta.append((w2, d))
+    rres = core.impl(rlines, timeout=300, jobs=8, tag="r09")
+    rides = core.impl(["ws " + json.dumps({"files": {"/w/" + k_: v for k_, v in w2.items()}, "root": "/w/main.td", "queries": [["diagnostics"]]}) for w2, _ in rmeta],
+                      timeout=120, tag="ri09")
+    for (w2, d), r, o in zip(rmeta, rres, rides):
+        try:
+            data = json.loads(r)
+            diags = json.loads(o)[0]
+        except Exception:
+            continue
+        if data.get("timeout"):
+            ck.fail(["C09", "republish", "timeout"], "session with an edit does not become idle", {"files": w2}, None, "idle")
+            continue
+        pubs = {}
+        for m in data["msgs"]:
+            if m.get("method") == "textDocument/publishDiagnostics":
+                pubs[urllib.parse.unquote(m["params"]["uri"]).rsplit("/", 1)[1]] = m["params"]["diagnostics"]
+        for f, ds in diags:
+            rel = f[3:]
+            want = sorted((json.dumps(rng_json(w2[rel], a, b), sort_keys=True), msg) for _, a, b, msg in ds)
+            got = sorted((json.dumps(g["range"], sort_keys=True), g["message"]) for g in pubs.get(rel, []))
+            if got != want:
+                ck.fail(["C09", "location", "republish:" + core.sig_hash(w2)], "publishDiagnostics for %s after an edit that keeps byte offsets but changes the line structure: "
+                        "the range the client holds does not denote the analysed span in the current text" % f, {"files": w2}, json.dumps(got)[:600], json.dumps(want)[:600])
+                break
+    ck.count("republish", len(rlines), {core.sig_hash(l) for l in rlines}, sample={"line": rlines[0][:300]} if rlines else None)
     # the conversion layer model (TgModel/Lsp.lean; theorems K_denotes / server_locations_denote_all of Props/C09.lean): the model's
     # LSP answer for the ide-level answer must be what the reference mapper expects (which the server's JSON was compared with above)
     mlines, mmeta = [], []
